@@ -114,8 +114,29 @@ def stage_boundary(ctx):
     hyp_drive(ctx, strat, judge, 300 if ctx.tier == "quick" else 10000)
 
 
+def stage_polar_rosette(ctx):
+    """Points on rings of 0.1 .. 8 cell widths around both poles, 180 meridians each, at the deepest resolutions (where a
+    degree of longitude is shorter than a cell and every longitude-based step of the search degenerates)."""
+    import math
+    ress = [22, 25, 27, 28, 29] if ctx.tier == "quick" else list(range(12, 30))
+    radii = [0.1 * j for j in range(1, 21)] + [2.0 + 0.5 * j for j in range(1, 13)]
+    jobs = [(r, rad, south) for r in ress for rad in radii for south in (False, True)]
+    phase = (ctx.seed % 20) * 0.1
+    n = 0
+    for r, rad, south in jobs[ctx.shard::ctx.nshards]:
+        L = refgeo.cell_width(r)
+        colat = math.degrees(rad * L)
+        for i in range(180):
+            lon = -180.0 + 2.0 * i + phase
+            lat = 90.0 - colat
+            judge_point({"lon": lon, "lat": -lat if south else lat, "res": r, "cls": "polar_rosette"}, ctx.col)
+            n += 1
+    ctx.col.count("polar_rosette_points", n)
+
+
 def plan(tier):
-    return [Stage("enum", 16, stage_enum, cost=6), Stage("hyp", 16, stage_hyp, cost=6), Stage("boundary", 16, stage_boundary, cost=4)]
+    return [Stage("enum", 16, stage_enum, cost=6), Stage("hyp", 16, stage_hyp, cost=6), Stage("boundary", 16, stage_boundary, cost=4),
+            Stage("polar_rosette", 16, stage_polar_rosette, cost=4)]
 
 
 def replay(rec, col):
